@@ -615,6 +615,12 @@ func objFields(r gw.Resp, withBody bool) []KV {
 		f = append(f, KV{"size", r.Headers.Get("Content-Length")})
 	}
 	f = append(f, KV{"etag", hx(r.Headers.Get("ETag"))})
+	// model-independent: an ETag that is not a multipart ETag is the MD5 of the bytes this GET returned
+	if et := strings.Trim(r.Headers.Get("ETag"), "\""); withBody && r.Status == 200 && et != "" && !strings.Contains(et, "-") {
+		if s := md5.Sum(r.Body); hex.EncodeToString(s[:]) != et {
+			f = append(f, KV{"etag-is-not-md5-of-body", "1"})
+		}
+	}
 	ct := r.Headers.Get("Content-Type")
 	f = append(f, KV{"ctype", hx(ct)})
 	var meta []KV
